@@ -132,6 +132,17 @@ def run(ctx):
                         if any(hist[i + 1] > hist[i] * (1 + 1e-8) + 1e-14 for i in range(len(hist) - 1)): viol('C04:history:monotone', 'residual history increases', inp, hist)
                         if info['iterations'] > n: viol('C04:iterations', 'more than n cycles', inp, info['iterations'])
                         ctx.count(('sys', cls, n, bcls, storage, prec, [a.t() for r in A for a in r]), n >= 2, sample=inp if cls == 'generic' and n == 3 and storage == 'dense' and prec == 'none' and bcls == 'random' else None)
+                        # hypotheses of the cycle theorems (thm/Arnoldi.v, thm/MGS.v) on the basis the solver returns: orthonormal columns, V^H A V upper Hessenberg
+                        if prec == 'none' and storage == 'dense' and cls in ('generic', 'hermitian', 'unitary', 'triangular', 'identity+rank1') and all(k in info for k in ('V0', 'V1', 'V2', 'V3')) and info['V0'] is not None:
+                            Vb = quaternion.as_quat_array(np.stack([np.asarray(info[k], dtype=float) for k in ('V0', 'V1', 'V2', 'V3')], axis=-1))
+                            if Vb.ndim == 2 and Vb.shape[0] == n and 1 <= Vb.shape[1] <= n:
+                                mk = Vb.shape[1]; Gm = utils.quat_matmat(utils.quat_hermitian(Vb), Vb)
+                                eo = fro(Gm - utils.quat_eye(mk))
+                                Hc = utils.quat_matmat(utils.quat_hermitian(Vb), utils.quat_matmat(An, Vb)); Hf = np.sqrt(np.sum(quaternion.as_float_array(Hc) ** 2, axis=-1))
+                                low = max([Hf[i, j] for i in range(mk) for j in range(mk) if i > j + 1] or [0.0])
+                                if eo > 1e-7: viol('C04:arnoldi:orthonormal', f'the Krylov basis returned in info is not orthonormal (||V^H V - I||_F = {eo:.2e})', inp, eo)
+                                if low > 1e-7 * max(1.0, fro(An)): viol('C04:arnoldi:hessenberg', f'V^H A V has an entry of modulus {low:.2e} below the first sub-diagonal', inp, low)
+                                ctx.count(('arnoldi-hyp', cls, n, bcls), mk >= 2)
                         # control model: feed the observed cycle residuals (unpreconditioned runs report the residual of the system actually iterated on)
                         if prec == 'none' and storage == 'dense':
                             for tol, cap in [(1e-10, None)] + [(t, c) for t in (1e-2, 1e-6, 1e-12) for c in range(0, n + 1)][: (4 if ctx.quick() else 40)]:
